@@ -19,6 +19,9 @@ def run(ctx):
                       "`$N` reads args[N]")
     ctx.rule("R15-3", "in run_exp the exit_on_error flag (with a non-zero status) is tested after every command before "
                       "the next one starts")
+    ctx.rule("R15-5", "the gate of the positional-parameter pass is not narrower than its rewriter: it is an unanchored "
+                      "regex search for the same `$N / ${N} / $@` trigger the rewriter rewrites, so a parameter anywhere in "
+                      "a word is expanded")
     ctx.rule("R15-4", "run_script (for source) and run_lines (for functions) are called in the shell process: not in a "
                       "post-fork child region, and try_run_func runs before the stage loop")
     for crate in ctx.crates:
@@ -27,6 +30,7 @@ def run(ctx):
         exit_code(ctx, crate)
         positional(ctx, crate)
         exit_on_error(ctx, crate)
+        gate_rule(ctx, crate)
         in_shell(ctx, crate)
     before = len(ctx.obligations)
     for crate in ctx.crates:
@@ -224,3 +228,41 @@ def in_shell(ctx, crate):
         bad = [bb for bb, t, c in rsp.calls() if bb in child and last_seg(c) in ("try_run_func", "run_lines", "run_script")]
         ctx.ob("R15-4", rsp.path, "no function body / script is started directly from the post-fork child region", not bad,
                key="R15-4|%s|child" % rsp.path, crate=crate.kind)
+
+
+def gate_rule(ctx, crate):
+    from .. import refacts
+    g = crate.fn("scripting::is_args_in_token")
+    r = crate.fn("scripting::expand_args_for_single_token")
+    if not ctx.require(g is not None and r is not None, "R15-5", "R15-5|anchor", "gate / rewriter of the positional pass not found"):
+        return
+    ctx.analysed(g)
+    glit = None
+    shape = False
+    for bb, t, c in g.calls():
+        if mir.short(c) == "libs::re::re_contains" or (last_seg(c) == "is_match" and "egex" in c):
+            a = g.call_args(bb)
+            for x in a:
+                s_ = mir.const_str(x)
+                if s_ is not None:
+                    glit = s_
+            # the searched text is the parameter itself and the result is the function's result
+            shape = any(mir.peel(strip_sites(x))[0] == "param" for x in a) and t["dest"]["l"] == 0
+    rlit = None
+    for bb, t, c in r.calls():
+        if last_seg(c) == "new" and "egex" in c:
+            rlit = mir.const_str(r.call_args(bb)[0])
+    ok = False
+    detail = "gate literal %r, rewriter literal %r" % (glit, rlit)
+    if glit is not None and rlit is not None and shape:
+        gi = refacts.info(glit)
+        unanchored = not glit.startswith("^") and not glit.endswith("$")
+        # same trigger: `$`, optional `{`, digits or `@`
+        core_g = glit.replace("(", "").replace(")", "")
+        trig = all(x in core_g for x in ("\\$", "\\{?", "0-9", "@"))
+        trig_r = all(x in rlit for x in ("\\$", "\\{?", "0-9", "@"))
+        ok = bool(gi.get("ok")) and unanchored and trig and trig_r
+    ctx.ob("R15-5", g.path, "the gate searches the whole word for the rewriter's trigger", ok,
+           key="R15-5|%s|gate" % g.path, crate=crate.kind,
+           detail=detail if ok else detail + ": cannot establish that every word the rewriter would rewrite passes the gate "
+                                             "(e.g. \"$HOME/$1\" must still be expanded)")
